@@ -1,6 +1,52 @@
 /* harnesses for Subject<int> */
 #define CANARY __CPROVER_assert(0, "VACUITY-CANARY")
-static void callback_effects(void) { }
+/* C10: what a callback may do to the subject it is called from: any sequence of public operations, i.e. any change that
+ * preserves the representation invariant (this is an ASSUMED contract: it is applied, never enforced).  Other
+ * subscriptions come and go; the watched one may be muted, unmuted, invalidated or unsubscribed (which destroys its
+ * observer), or subscribed if it was not (ids are never reused, so only with an id the counter had not reached).  Nested
+ * notify rounds are accounted to themselves. */
+void callback_effects(void)
+__CPROVER_requires(g_subj != 0 && g_w != 0)
+__CPROVER_assigns(g_subj->m_observers.len, g_subj->m_subscriptionCounter, __CPROVER_object_whole(ITEMS(g_subj)))
+__CPROVER_assigns(g_w_in, g_oi, g_w_alive, g_w_deletes, g_w->__base_Observer.m_params.mute, g_w->m_isValid)
+__CPROVER_ensures(SUBJ_INV(g_subj) && g_subj->m_subscriptionCounter >= __CPROVER_old(g_subj->m_subscriptionCounter) && g_subj->m_subscriptionCounter < 0xfffffff0U)
+__CPROVER_ensures((__CPROVER_old(g_w_in) && g_w_in) ==> (g_oi <= __CPROVER_old(g_oi) && g_w_alive && g_w_deletes == __CPROVER_old(g_w_deletes)))
+__CPROVER_ensures((__CPROVER_old(g_w_in) && !g_w_in) ==> (!g_w_alive && g_w_deletes == __CPROVER_old(g_w_deletes) + 1))
+__CPROVER_ensures(!__CPROVER_old(g_w_in) ==> (g_w_deletes == __CPROVER_old(g_w_deletes) && BEQ(g_w_alive, __CPROVER_old(g_w_alive))))
+__CPROVER_ensures((!__CPROVER_old(g_w_in) && g_w_in) ==> (!g_in_snapshot && g_w_alive && g_wid >= __CPROVER_old(g_subj->m_subscriptionCounter)))
+{ }
+static struct Subj *mksubj(void) {
+  size_t c; __CPROVER_assume(c >= 1 && c <= SCAP_MAX); g_scap = c;
+  struct Subj *s = malloc(sizeof(*s)); __CPROVER_assume(s != 0);
+  s->m_observers.items = malloc(g_scap * sizeof(struct ODet)); __CPROVER_assume(s->m_observers.items != 0);
+  g_subj = s; g_w = malloc(sizeof(*g_w)); __CPROVER_assume(g_w != 0); g_wobs = &g_w->__base_Observer;
+  g_w_alive = 1; g_w_deletes = 0; g_cb_calls = 0; g_turn_seen = 0; g_thrown = 0;
+  __CPROVER_assume(s->m_subscriptionCounter < 0xfffffff0U && SUBJ_INV(s));
+  /* the arbitrary snapshot index g_c2 and the arbitrary list index g_o2 denote the same entry */
+  __CPROVER_assume(g_c2 < LEN(s) ==> g_o2 == LEN(s) - 1 - g_c2);
+  g_in_snapshot = g_w_in; g_turn_pos = g_oi; g_mute0 = g_w->__base_Observer.m_params.mute; g_valid0 = g_w->m_isValid;
+  return s;
+}
+void h_Subj_notify_pure(void) {
+  struct Subj *s = mksubj(); g_reentrant = 0; int a; size_t len0 = LEN(s);
+  Subj__notify(s, a);
+  __CPROVER_assert(g_cb_calls == ((g_in_snapshot && !g_mute0 && g_valid0) ? 1 : 0), "C05 an observer is invoked exactly once iff it is subscribed, valid and not muted at the time of the call");
+  __CPROVER_assert(g_cb_calls == 1 ==> g_cb_arg == a, "C05 it receives the argument value that was passed");
+  /* items[] is oldest-first and ids increase with the index (SUBJ_INV_ORD), so the rank in subscription order is the index */
+  __CPROVER_assert(g_cb_calls == 1 ==> g_cb_pos == g_turn_pos, "C05 observers are invoked in subscription order: the k-th oldest subscription is the k-th visited");
+  __CPROVER_assert((g_in_snapshot && g_valid0) ==> (g_w_in && g_w_alive && g_w_deletes == 0), "C05 a valid subscription survives the round");
+  __CPROVER_assert((g_in_snapshot && !g_valid0) ==> (!g_w_in && g_w_deletes == 1), "C05 an observer found invalid is removed and destroyed once");
+  __CPROVER_assert(!g_in_snapshot ==> (!g_w_in && g_cb_calls == 0), "C05 an unsubscribed observer is never invoked");
+  __CPROVER_assert(SUBJ_INV(s) && !g_thrown, "C05 the subject stays consistent");
+  CANARY; }
+void h_Subj_notify_reentrant(void) {
+  struct Subj *s = mksubj(); g_reentrant = 1; int a;
+  Subj__notify(s, a);
+  __CPROVER_assert(g_cb_calls <= 1, "C10 an observer is invoked at most once per round whatever the callbacks do");
+  __CPROVER_assert(g_cb_calls == 1 ==> g_cb_pos == g_turn_pos, "C10 the round keeps its order whatever the callbacks do");
+  __CPROVER_assert(g_cb_calls == 1 ==> (g_in_snapshot && g_cb_arg == a && g_cb_in_at_call), "C10 only observers that were subscribed when the round started and still are at their turn are invoked");
+  __CPROVER_assert(SUBJ_INV(s) && g_w_deletes <= 1, "C10 the subject stays consistent and no observer is destroyed twice");
+  CANARY; }
 void h_Subn_ctor(void) { struct Subn *s; unsigned i; struct Subj *j; struct Obsv *o; Subn__ctor(s, i, j, o); CANARY; }
 void h_Subn_assign_move(void) { struct Subn *a, *b; Subn__assign_move(a, b); CANARY; }
 void h_Subn_ctor_move(void) { struct Subn *a, *b; Subn__ctor_move(a, b); CANARY; }
